@@ -49,9 +49,12 @@ _tqdm.tqdm.monitor_interval = 0
 ID = "C01"
 LEAN_MODULES = ["StraxModel.Props.C01"]
 TRUSTED = [
-    "the per-layer theorems that `pipeline_content` composes are those of C05 (mailbox delivery), C07 (rechunker), C08 "
-    "(Plugin.iter alignment), C09 (overlap window), C03 (save/load), C11 (which origin feeds a type); here they enter as the "
-    "hypotheses `Transport` / `ChunkHom` and are tied to the code by those properties' own correspondences",
+    "layers connected to C01 by a PROVED bridge (instances built from the other property's model and theorem): C07 rechunker "
+    "(Transport.rechunk), C03 save/load (Transport.storage), C08 Plugin.iter (Aligner.iter), C09 overlap window (overlapKernel), "
+    "C05 one mailbox (mailbox_edge_is_ident: partial correctness); each is tied to the code by that property's own correspondence",
+    "NOT connected by a theorem, carried by these end-to-end runs only: the single-thread PostOffice, the wiring of several "
+    "mailboxes / divide_outputs / savers by ThreadedMailboxProcessor and its deadlock freedom (C06), executors / max_workers, "
+    "which origin feeds a data type (get_components, C11); there the theorems say 'if the edge behaves as some Transport'",
     "end-to-end runs use real OS threads (ThreadedMailboxProcessor, ThreadPoolExecutor): schedules are whatever the OS picks, "
     "not enumerated (C05 enumerates them for a single mailbox)",
 ]
@@ -139,6 +142,13 @@ def _out(self, t, time, endtime, ids):
     return r
 
 
+def window_of(node):
+    """(look-back, look-ahead) of an overlap-window node (`w`: the symmetric window of older recorded cases)"""
+    if "wl" in node:
+        return int(node["wl"]), int(node["wr"])
+    return int(node["w"]), int(node["w"])
+
+
 def _src_class(name, chunks, attrs):
     def is_ready(self, chunk_i):
         return chunk_i < len(self.harness_chunks)
@@ -208,16 +218,18 @@ def _node_class(node, kinds, attrs):
         compute = None
         base = strax.LoopPlugin
     elif k == "overlap":
-        w = node["w"]
+        wl, wr = window_of(node)
 
         def compute(self, **kw):
             x = kw[kd0]
             t = x["time"]
-            n = np.array([int(np.sum(np.abs(t - ti) <= w)) for ti in t], dtype=np.int64)
+            # window-local: the rows that start at most `wl` before and at most `wr` after this row starts
+            n = np.array([int(np.sum((t - ti >= -wl) & (t - ti <= wr))) for ti in t], dtype=np.int64)
             return _out(self, o0, t, x["endtime"], (x[idf(d0)] * 31 + n) % MOD)
 
         def get_window_size(self):
-            return w
+            # (look-back, look-ahead); a symmetric window is sometimes given as the scalar strax also accepts
+            return wl if (wl == wr and node.get("scalar")) else (wl, wr)
         attrs.update(get_window_size=get_window_size)
         base = strax.OverlapWindowPlugin
     elif k == "downchunk":
@@ -813,8 +825,16 @@ def reconvergent(nodes):
 def gen_case(rng, quick=True, force=None):
     """one random case; `force` may pin {'brick': bool, 'd13': bool}"""
     force = force or {}
+    ovl_win = None
+    if force.get("ovl"):
+        w = rng.choice([5, 10, 20])
+        ovl_win = (w, w)
+    if force.get("ovla"):
+        # strongly asymmetric windows, both directions: a look-back / look-ahead mix-up must show
+        ovl_win = rng.choice([(2, 40), (40, 2), (0, 30), (30, 0), (5, 150), (150, 5), (1, 12), (12, 1)])
+        force = dict(force, ovl=True)
+    ovl_w = max(ovl_win) if ovl_win else None
     n_src = 2 if force.get("brick") else (1 if (force.get("ovl") or force.get("exh")) else rng.choice([1, 1, 2]))
-    ovl_w = rng.choice([5, 10, 20]) if force.get("ovl") else None
     kinds, disjoint, root = {}, {}, {}
     slots = {"sa": 0, "sb": 1}
     srcs = []
@@ -906,7 +926,7 @@ def gen_case(rng, quick=True, force=None):
 
     exh_pair = None
     if force.get("ovl"):
-        add("overlap", ["sa"], [fresh()], ["sa"], [True], w=ovl_w)
+        add("overlap", ["sa"], [fresh()], ["sa"], [True], wl=ovl_win[0], wr=ovl_win[1], scalar=rng.random() < 0.5)
     if force.get("exh"):
         # a row-wise (or down-chunking) plugin and an exhaust plugin read the same source
         x, y = fresh(), fresh()
@@ -958,7 +978,12 @@ def gen_case(rng, quick=True, force=None):
             if not cands:
                 continue
             x = rng.choice(cands)
-            add(kind, [x], [fresh()], [kinds[x]], [True], w=rng.choice([0, 1, 2, 3, 5, 8, 20, 600]))
+            if rng.random() < 0.5:
+                w = rng.choice([0, 1, 2, 3, 5, 8, 20, 600])
+                win = (w, w)
+            else:
+                win = rng.choice([(2, 40), (40, 2), (0, 8), (8, 0), (0, 600), (600, 0), (1, 5), (5, 1), (3, 20), (20, 3)])
+            add(kind, [x], [fresh()], [kinds[x]], [True], wl=win[0], wr=win[1], scalar=rng.random() < 0.5)
         elif kind == "downchunk":
             add(kind, [d], [fresh()], [kinds[d]], [disjoint[d]], c=c, k=rng.randint(1, 3))
         elif kind == "exhaust":
@@ -1058,6 +1083,10 @@ def brief(case):
 
 
 # ============================================================================= ops for the Lean driver
+def _kind(n):
+    return "overlap2" if n["kind"] == "overlap" else n["kind"]
+
+
 def _params(n):
     k = n["kind"]
     if k in ("map", "pairfirst", "downchunk", "exhaust"):
@@ -1067,12 +1096,12 @@ def _params(n):
     if k == "multi":
         return f"{n['c']},{n['m']},{n['r']}"
     if k == "overlap":
-        return str(n["w"])
+        return "%d,%d" % window_of(n)
     return ""
 
 
 def op_whole(case):
-    g = ";".join(f"{n['kind']}:{_params(n)}:{','.join(n['deps'])}:{','.join(n['outs'])}" for n in case["nodes"])
+    g = ";".join(f"{_kind(n)}:{_params(n)}:{','.join(n['deps'])}:{','.join(n['outs'])}" for n in case["nodes"])
     srcs = " ".join(f"{s['name']}={sl.show_rows([tuple(r) for r in s['rows']])}" for s in case["srcs"])
     return f"c01.whole {g} {case['target']} {srcs}"
 
@@ -1118,7 +1147,7 @@ def _stream_tok(name, chunks, ids_only=False):
 
 
 def op_exec(ec):
-    g = ";".join(f"{n['kind']}:{_params(n)}:{','.join(n['deps'])}:{','.join(n['outs'])}" for n in ec["nodes"])
+    g = ";".join(f"{_kind(n)}:{_params(n)}:{','.join(n['deps'])}:{','.join(n['outs'])}" for n in ec["nodes"])
     strict = ",".join(str(int(any(p in ("T", "A") for p in n["save"]))) for n in ec["nodes"])
     kinds = ",".join(f"{k}:{v}" for k, v in sorted(ec["kinds"].items()))
     env = " ".join(_stream_tok(k, v) for k, v in sorted(ec["env"].items()))
@@ -1327,26 +1356,20 @@ def d13_corpus():
 
 
 def gen_cases(ctx):
-    n = ctx.pick(900, 9000)
-    cases = []
-    for i in range(n):
-        force = None
-        if i % 40 == 7:
-            force = {"brick": True}
-        elif i % 60 == 11:
-            force = {"d13": True}
-        elif i % 12 == 3:
-            force = {"exh": True}
-        elif i % 12 == 9:
-            force = {"ovl": True}
-        cases.append(gen_case(ctx.rng, quick=not ctx.thorough, force=force))
-    # the corpus runs early but does not monopolise the start of the run: one corpus case after every second random case
+    """forced shapes FIRST (a slow machine must not starve them), then the D13 corpus interleaved with the random cases"""
+    q = lambda a, b: ctx.pick(a, b)       # noqa: E731
+    forced = []
+    for name, n in (("ovla", q(24, 120)), ("exh", q(20, 100)), ("ovl", q(16, 80)), ("brick", q(8, 60)), ("d13", q(6, 40))):
+        forced.append([gen_case(ctx.rng, quick=not ctx.thorough, force={name: True}) for _ in range(n)])
+    first = [c for group in zip(*[g[:6] for g in forced]) for c in group]          # a round-robin head …
+    first += [c for g in forced for c in g[6:]]                                    # … then the rest
+    random_cases = [gen_case(ctx.rng, quick=not ctx.thorough) for _ in range(ctx.pick(830, 8600))]
     corpus, out = d13_corpus(), []
-    for i, c in enumerate(cases):
+    for i, c in enumerate(random_cases):
         out.append(c)
         if i % 2 == 1 and corpus:
             out.append(corpus.pop(0))
-    return out + corpus
+    return first + out + corpus
 
 
 def run(ctx):
